@@ -8,7 +8,7 @@
     against GMP, word for word, with operands at chosen alignments inside
     exact-size malloc blocks surrounded by checked garbage.
 """
-from vrun import Job
+from vrun import Job, with_alt_flavours
 
 LEVEL = 'exploration'
 RULE = ('(b) moduli: odd and even, bit lengths 9..1100 plus every 37th up to 4096 (quick) / every length '
@@ -70,7 +70,7 @@ def jobs(tier, seed):
         js.append(Job('primct%d' % i, 'h_bigint_primct',
                       ['--seed', seed, '--worker', i, '--nworkers', NW, '--cases', pc, '--stream', 1],
                       flavour='asan', extra_src=['h_bigint_prim.c'], extra_cflags=['-DPRIM_EXTRA_TU'], timeout=to))
-    return js
+    return with_alt_flavours(js, tier, seed)
 
 
 def finish(res, tier, seed):
